@@ -1116,7 +1116,8 @@ fn gen(tier: &str, seed: u64, out: &mut dyn FnMut(String)) {
         }
         let a = tag_off(s, 1);
         for (oi, op) in cl_ops.iter().enumerate() {
-            if !thorough && (si + oi) % 3 != 0 { continue; }
+            // (all nine ops on the shapes above 65 536 elements, a third of them in rotation on the others)
+            if !thorough && (si + oi) % 3 != 0 && s.iter().product::<usize>() <= 65536 { continue; }
             out(format!("hclo {}", fold_or(op, &a, big_clos[(si + oi) % 3], 7)));
         }
         if thorough || si % 4 == 0 { out(format!("hclo into_iter {a}")); out(format!("hclo into_iter_ref {a}")); }
